@@ -18,7 +18,8 @@ pub struct Alt { pub tag: String, pub kind: String }
 #[derive(Clone, Debug, PartialEq)]
 pub enum JsonAt { Tag, Key(String), Nested(String), Keys(Vec<String>) }
 #[derive(Clone, Debug)]
-pub struct El { pub alts: Vec<Alt>, pub mand: bool, pub max: usize, pub json: JsonAt }
+pub struct El { pub alts: Vec<Alt>, pub mand: bool, /// mandatory as documented (false for `M~`: mandatory only in the model, to keep generation unambiguous)
+    pub doc_mand: bool, pub max: usize, pub json: JsonAt }
 #[derive(Clone, Debug)]
 pub struct Seq { pub lo: usize, pub hi: usize, pub array: bool, pub flat: bool, pub els: Vec<Node> }
 #[derive(Clone, Debug)]
@@ -62,13 +63,14 @@ fn parse_item(it: &str) -> Node {
     let _ = num;
     let flag = parts[1];
     let mand = flag.starts_with('M');
+    let doc_mand = mand && !flag.contains('~');
     let max = if let Some(p) = flag.find('*') { let r = &flag[p + 1..]; if r.is_empty() { usize::MAX } else { r.parse().unwrap() } } else { 1 };
     let mut json = JsonAt::Tag;
     for p in &parts[2..] {
         if let Some(k) = p.strip_prefix("@@") { json = JsonAt::Nested(k.to_string()); }
         else if let Some(k) = p.strip_prefix('@') { if k.contains(',') { json = JsonAt::Keys(k.split(',').map(|x| x.to_string()).collect()); } else { json = JsonAt::Key(k.to_string()); } }
     }
-    Node::F(El { alts, mand, max, json })
+    Node::F(El { alts, mand, doc_mand, max, json })
 }
 
 const L: &[(&str, &str)] = &[
@@ -77,7 +79,7 @@ const L: &[(&str, &str)] = &[
 ("103", "20 M; 13C O*; 23B M; 23E O*; 26T O; 32A M; 33B O; 36 O; 50{A,F,K} M; 51A O; 52{A,D} O; 53{A,B,D} O; 54{A,B,D} O; 55{A,B,D} O; 56{A,C,D} O; 57{A,B,C,D} O; 59{-,A,F} M; 70 O; 71A M; 71F O*; 71G O; 72 O; 77B O; 77T O"),
 ("104", "20 M; 21R O; 23E O; 21E O; 30 M; 51A O; 50{C,L} O; 50{A,K} O; 52{A,C,D} O; 26T O; 77B O; 71A O; 72 O; \
          ( 1..99 | 21 M; 23E O; 21C O; 21D O; 21E O; 32B M; 50{C,L} O; 50{A,K} O; 52{A,C,D} O; 57{A,B,C,D} O; 59{-,A} M; 70 O; 26T O; 77B O; 33B O; 71A O; 71F O; 71G O; 36 O ); \
-         (flat 0..1 | 32B M; 19 O; 71F O; 71G O; 53{A,B,D} O )"),
+         (flat 0..1 | 32B M~; 19 O; 71F O; 71G O; 53{A,B,D} O )"),
 ("107", "20 M; 23E O; 21E O; 30 M; 51A O; 50{C,L} O; 50{A,K} O; 52{A,C,D} O; 26T O; 77B O; 71A O; 72 O; \
          ( 1..99 | 21 M; 23E O; 21C O; 21D O; 21E O; 32B M; 50{C,L} O; 50{A,K} O; 52{A,C,D} O; 57{A,B,C,D} O; 59{-,A,F} M; 70 O; 26T O; 77B O; 33B O; 71A O; 71F O; 71G O; 36 O ); \
          32B M; 19 O; 71F O; 71G O; 53{A,B,D} O"),
@@ -91,10 +93,10 @@ const L: &[(&str, &str)] = &[
 ("199", "20 M; 21 O; 79 M"),
 ("200", "20 M; 32A M; 53B O; 56{A,D} O; 57{A,B,D} M; 72 O"),
 ("202", "20 M; 21 M; 13C O*; 32A M; 52{A,D} O; 53{A,B,D} O; 54{A,B,D} O; 56{A,C,D} O; 57{A,B,C,D} O; 58{A,D} M; 72 O; \
-         (obj 0..1 | 50{A,F,K} M; 52{A,D} O; 56{A,C,D} O; 57{A,B,C,D} O; 59{-,A,F} M; 70 O; 72 O; 33B O )"),
+         (obj 0..1 | 50{A,F,K} M~; 52{A,D} O; 56{A,C,D} O; 57{A,B,C,D} O; 59{-,A,F} M~; 70 O; 72 O; 33B O )"),
 ("204", "19 M; 20 M; 30 M; 57{A,B,C,D} O; 58{A,D} O; 72 O; ( 1..10 | 20 M; 21 O; 32B M; 53{A,B,D} O; 72 O )"),
 ("205", "20 M; 21 M; 13C O*; 32A M; 52{A,D} O; 53{A,B,D} O; 56{A,C,D} O; 57{A,B,C,D} O; 58{A,D} M; 72 O"),
-("210", "20 M; 25 O; 30 M; ( 1..10 | 21 M; 32B M; 50{-,C,F} O; 52{A,D} O; 56{A,C,D} O )"),
+("210", "20 M; 25 O; 30 M; ( 1..10 | 21 O; 32B M; 50{-,C,F} O; 52{A,D} O; 56{A,C,D} O )"),
 ("290", "20 M; 21 M; 25 M; 32{C,D} M; 52{A,D} O; 71B M; 72 O"),
 ("291", "20 M; 21 M; 32B M; 52{A,D} O; 57{A,B,D} O; 71B M; 72 O"),
 ("292", "20 M; 21 M; 11S M; 79 M"),
@@ -133,6 +135,7 @@ pub struct Occ {
     pub el_id: usize,
     pub repeatable: bool,
     pub mand: bool,
+    pub doc_mand: bool,
     pub inst_class: &'static str,
 }
 
@@ -273,7 +276,7 @@ impl<'a> Explorer<'a> {
                                 // every occurrence of a repeated element carries different content
                                 let idx = (ii + r + occ_idx) % insts.len();
                                 let idx = if ii == 0 && r == 0 && occ_idx == 0 { 0 } else { idx };
-                                acc.push(Occ { tag: alt.tag.clone(), kind: alt.kind.clone(), content: insts[idx].1.clone(), cont: cont.clone(), json: e.json.clone(), el_id: id, repeatable: e.max > 1, mand: e.mand, inst_class: insts[idx].0 });
+                                acc.push(Occ { tag: alt.tag.clone(), kind: alt.kind.clone(), content: insts[idx].1.clone(), cont: cont.clone(), json: e.json.clone(), el_id: id, repeatable: e.max > 1, mand: e.mand, doc_mand: e.doc_mand, inst_class: insts[idx].0 });
                             }
                             let mut pushed = 0;
                             if c_cost > 0 { self.devs.push(format!("{}x{}{}", cnt, alt.tag, at)); pushed += 1; }
